@@ -89,6 +89,8 @@ def run_history(ctx, res, rng, hid, allow=("delete_page", "rename_page", "paths"
             w.rename_page()
         elif r < 0.80 and "delete_page" in allow:
             w.restore_page()
+        elif r < 0.83 and "rename_page" in allow:
+            w.replace_page()
         elif r < 0.85:
             w.advance()
         else:
